@@ -17,9 +17,18 @@ Definition atan2 (y x : R) : R :=
 
 (* the physical constants h and m_n are parameters: every theorem is stated
    for arbitrary positive values of them *)
+(* Equality of unit MULTIPLIERS (same dimensions) is not decided in the R
+   instance: [fclose] answers true, i.e. `a + b`, `a <= b`, `where` never raise
+   UnitError here for operands of equal dimension, and the value is computed
+   as if b were expressed in a's unit.  This is fail-closed for the theorems:
+   they conclude a PHYSICAL value for arbitrary multipliers, which is false
+   whenever two operands with different multipliers meet in + - <= where.  The
+   executable Q instance decides the multipliers honestly (QInst.qclose), and
+   the correspondence runs compare raised UnitErrors with the implementation.
+   (Deciding it with Req_EM_T leaves stuck `if`s that make cbv blow up.) *)
 Definition ROps (h mn : R) : Fops :=
   mkFops R Rplus Rminus Rmult Rdiv Ropp IZR sqrt sin cos atan2 asin exp Rabs PI
-         Rleb Rltb Reqb Reqb h mn.
+         Rleb Rltb Reqb (fun _ _ => true) h mn.
 
 Lemma Rleb_true a b : a <= b -> Rleb a b = true.
 Proof. unfold Rleb; destruct (Rle_dec a b); tauto. Qed.
